@@ -150,14 +150,32 @@ theorem tag_highest_satisfying (tags : List Entry) (version : String) (e : Entry
     intro e' he' h1 h2
     exact first_match_is_max _ _ hs e0 hf e' he' (by simp [h1, h2])
 
-/-! ## 4. Null entries (known finding C18:null-entry-panic) -/
+/-! ## 4. Null entries -/
 
-/-- Counterexample to "whatever the ... nullness of entries": a null entry among two or more
-makes loading crash; a lone null entry survives loading and crashes the first query. -/
-theorem counterexample_null_entries (e : Entry) (he : e.valid = true) :
-    loadEntries [none, some e] = .panic ∧ Index.get [none] "" true = .panic := by
+/-- Whatever the nullness of the entries: loading never crashes, and the loaded list is a
+permutation of the valid non-null entries, sorted newest first.  (A null entry used to crash the
+sort or the first query: repaired in /repo, see known_findings.json.) -/
+theorem load_with_nulls (raw : List (Option Entry)) :
+    ∃ es : List Entry, loadEntries raw = .ok (es.map some) ∧ es.Perm (keptEntries raw) ∧
+      es.Pairwise (fun a b => b.key ≤ a.key) := by
+  refine ⟨_, rfl, List.mergeSort_perm _ _, ?_⟩
+  have := List.pairwise_mergeSort geEntry_trans geEntry_total (keptEntries raw)
+  exact this.imp (by intro a b h; simpa [geEntry] using h)
+
+theorem kept_iff (raw : List (Option Entry)) (e : Entry) :
+    e ∈ keptEntries raw ↔ some e ∈ raw ∧ e.valid = true := by
+  unfold keptEntries
+  simp only [List.mem_filterMap]
   constructor
-  · simp [loadEntries, he]
-  · simp [Index.get, firstMatch]
+  · rintro ⟨o, ho, h⟩
+    cases o with
+    | none => cases h
+    | some x =>
+      simp only at h
+      split at h
+      · cases h; exact ⟨ho, by assumption⟩
+      · cases h
+  · rintro ⟨h1, h2⟩
+    exact ⟨some e, h1, by simp [h2]⟩
 
 end Helm.Props.C18
